@@ -306,7 +306,7 @@ def parse_arith(s, consts):
             a = atom()
             return "(ANeg %s)" % a
         if t.isdigit():
-            return "(AConst %s)" % t
+            return "(AConst %s%%Z)" % t
         if t in ("I_location", "T_loc"):
             return "ALoc"
         if t in ("t_args_size", "size") or t.startswith("sizeof...") or "tuple_size" in t:
